@@ -83,10 +83,13 @@ Definition wf_locator (l : locator) : Prop :=
   in_u31 (loc_version l) /\ Forall (fun h => length h = 32%nat) (loc_have l) /\ lenZ (loc_have l) < 2^64.
 Definition is_some {A} (o : option A) : Prop := match o with Some _ => True | None => False end.
 Definition owf {A} (P : A -> Prop) (o : option A) : Prop := match o with Some x => P x | None => False end.
+(* the Appendix-B `version` layout is that of protocol versions from 209 on (older ones
+   end after addr_recv, resp. have no start height) *)
+Definition full_version_min : Z := 209.
 Definition wf_version (v : version_msg) : Prop :=
   in_i 4 (v_version v) /\ in_u 8 (v_services v) /\ in_i 8 (v_time v) /\ wf_netaddr (v_to v) /\
   owf wf_netaddr (v_from v) /\ owf (in_u 8) (v_nonce v) /\ owf (wf_bytes max_size) (v_subver v) /\
-  owf (in_i 4) (v_height v) /\ in_u 1 (v_relay v).
+  owf (in_i 4) (v_height v) /\ in_u 1 (v_relay v) /\ full_version_min <= v_version v.
 Definition wf_msg (time_version : Z) (m : msg) : Prop :=
   match m with
   | MVersion v => wf_version v
